@@ -205,6 +205,155 @@ def child_state(v: Any) -> Dict[str, Any]:
     return out
 
 
+# ---------------------------------------------------------------------------
+# the file API: dump(obj, fp) / load(fp) over binary files, text files of several encodings, StringIO, BytesIO
+# ---------------------------------------------------------------------------
+FILE_KINDS = ["binary-file", "BytesIO", "StringIO", "text:utf-8", "text:ascii", "text:latin-1", "text:cp1252", "text:utf-16"]
+
+
+def _open_for_write(kind: str):
+    """(file object, function returning the text that was written - decoded with the file's codec)"""
+    if kind == "StringIO":
+        fp = io.StringIO()
+        return fp, fp.getvalue
+    raw = io.BytesIO()
+    if kind == "BytesIO":
+        return raw, lambda: raw.getvalue().decode("utf-8")
+    if kind == "binary-file":
+        fp = io.BufferedWriter(raw)                       # what open(path, "wb") returns, without touching the disk
+
+        def text():
+            fp.flush()
+            return raw.getvalue().decode("utf-8")
+
+        return fp, text
+    codec = kind.split(":", 1)[1]
+    fp = io.TextIOWrapper(raw, encoding=codec, newline="")   # what open(path, "w", encoding=codec) returns
+
+    def text():
+        fp.flush()
+        return raw.getvalue().decode(codec)
+
+    return fp, text
+
+
+def _open_for_read(kind: str, text: str):
+    if kind == "StringIO":
+        return io.StringIO(text)
+    if kind in ("BytesIO", "binary-file"):
+        raw = io.BytesIO(text.encode("utf-8"))
+        return raw if kind == "BytesIO" else io.BufferedReader(raw)
+    codec = kind.split(":", 1)[1]
+    return io.TextIOWrapper(io.BytesIO(text.encode(codec)), encoding=codec, newline="")
+
+
+def child_file(v: Any) -> Dict[str, Any]:
+    from chuk_mcp.protocol import fast_json
+
+    out: Dict[str, Any] = {"dump": {}, "load": {}}
+    for kind in FILE_KINDS:
+        try:
+            fp, text = _open_for_write(kind)
+            fast_json.dump(v, fp)
+            try:
+                out["dump"][kind] = {"text": text()}
+            except (UnicodeDecodeError, UnicodeError) as e:
+                out["dump"][kind] = {"undecodable": type(e).__name__}
+        except BaseException as e:  # noqa: BLE001 - an observation
+            out["dump"][kind] = {"exc": type(e).__name__}
+    sources = {"ascii-text": json.dumps(v), "raw-text": json.dumps(v, ensure_ascii=False)}
+    for kind in FILE_KINDS:
+        for sname, t in sources.items():
+            try:
+                fp = _open_for_read(kind, t)
+            except UnicodeEncodeError:
+                continue                                       # this codec cannot hold the raw text: not an input
+            try:
+                out["load"][f"{kind}/{sname}"] = {"v": enc(fast_json.load(fp))}
+            except BaseException as e:  # noqa: BLE001
+                out["load"][f"{kind}/{sname}"] = {"exc": type(e).__name__}
+    return out
+
+
+def file_values() -> List[Any]:
+    """The string cases of the value grammar: every boundary string as a scalar, as an item, as a member value, as a key."""
+    strings = [x for x in scalars_ext() if isinstance(x, str)]
+    vals: List[Any] = []
+    for x in strings:
+        vals += [x, [x], {"k": x}, {x: 1}]
+    vals += [{"a": [1, 2.5, True, None, I64 - 1, -0.0], "\u00e9": {"k": "\u20ac\U0001F600"}}, [], {}, 0, None]
+    return dedupe(vals)
+
+
+def judge_files(values: List[Any], pools: Dict[str, workers.Pool], tally: Tally, audit_store: Dict[str, list]):
+    from .. import orderdep
+
+    names = list(pools)
+    cases = [["file", enc(v)] for v in values]
+    ans = orderdep.per_config([{"name": n} for n in names], lambda c: pools[c["name"]].map(cases))
+    viol: List[Tuple[int, dict, str]] = []
+    texts: Dict[str, int] = {}
+    text_list: List[str] = []
+    produced = []
+    for n in names:
+        for i in workers.audit_indices(cases, 7):
+            audit_store.setdefault(n, []).append((cases[i], ans[n][i]))
+    for i, v in enumerate(values):
+        want = cases[i][1]
+        for n in names:
+            if "harness_exc" in ans[n][i]:
+                raise core.HarnessError(f"worker {n}: {ans[n][i]['harness_exc']}")
+        for kind in FILE_KINDS:
+            res_ = {n: ans[n][i]["dump"][kind] for n in names}
+            tally.add("file_dumps", len(names))
+            ok = {n: "text" in r for n, r in res_.items()}
+            if len(set(ok.values())) > 1:
+                good = [n for n in names if ok[n]][0]
+                bad = [n for n in names if not ok[n]][0]
+                viol.append((i, {"class": "dump-to-file-succeeds-under-one-backend-only", "file": kind, "succeeds_under": good,
+                                 "fails_with": res_[bad].get("exc") or res_[bad].get("undecodable")},
+                             f"dump(v, {kind}) for v={short(v)}: fine under {good}, under {bad} -> {res_[bad]}"))
+            for n in names:
+                r = res_[n]
+                if "undecodable" in r:
+                    viol.append((i, {"class": "file-content-not-in-the-files-encoding", "file": kind, "enc": n},
+                                 f"dump(v, {kind}) under {n} for v={short(v)} wrote bytes that do not decode with the file's codec"))
+                if "text" in r:
+                    t = r["text"]
+                    if "\n" in t or "\r" in t:
+                        viol.append((i, {"class": "raw-line-break", "enc": n, "api": f"dump({kind})"},
+                                     f"dump(v, {kind}) under {n} of {short(v)} contains a raw line break"))
+                    ti = texts.setdefault(t, len(text_list))
+                    if ti == len(text_list):
+                        text_list.append(t)
+                    produced.append((i, n, kind, ti))
+        for key_, by in ((k_, {n: ans[n][i]["load"].get(k_) for n in names}) for k_ in ans[names[0]][i]["load"]):
+            for n, r in by.items():
+                if r is None:
+                    continue
+                tally.add("file_loads")
+                if "exc" in r:
+                    viol.append((i, {"class": "load-from-file-raised", "dec": n, "file": key_, "exception": r["exc"]},
+                                 f"load({key_}) under {n} raised {r['exc']} for the JSON text of {short(v)}"))
+                elif r["v"] != want and not strict_eq(v, dec(r["v"])):
+                    viol.append((i, {"class": "load-from-file-mismatch", "dec": n, "file": key_},
+                                 f"load({key_}) under {n} gave {short(dec(r['v']))} for the JSON text of {short(v)}"))
+    dec_cases = [["dec", t] for t in text_list]
+    dec_ans = orderdep.per_config([{"name": n} for n in names], lambda c: pools[c["name"]].map(dec_cases))
+    for (i, prod, kind, ti) in produced:
+        for n in names:
+            r = _expand(dict(dec_ans[n][ti]))["loads-str"]
+            tally.add("file_roundtrips_judged")
+            if "exc" in r:
+                viol.append((i, {"class": "file-content-does-not-load", "enc": prod, "dec": n, "file": kind},
+                             f"what dump(v, {kind}) wrote under {prod} for v={short(values[i])} does not load under {n} "
+                             f"({r['exc']}): {text_list[ti][:100]!r}"))
+            elif r["v"] != cases[i][1] and not strict_eq(values[i], dec(r["v"])):
+                viol.append((i, {"class": "file-roundtrip-mismatch", "enc": prod, "dec": n, "file": kind},
+                             f"what dump(v, {kind}) wrote under {prod} loads under {n} to {short(dec(r['v']))}, v={short(values[i])}"))
+    return viol
+
+
 # keyword arguments json.dumps accepts that still ask for a compact (single line) encoding
 COMPACT_KW: List[Tuple[str, Dict[str, Any]]] = [
     ("indent=None", {"indent": None}),
@@ -239,6 +388,8 @@ def child_handle(case: Any) -> Any:
         from .. import encseq
 
         return encseq.child_seq(case)
+    if op == "file":
+        return child_file(dec(case[1]))
     if op == "enc":
         v = dec(case[1])
         level = case[2] if len(case) > 2 else "full"
@@ -695,7 +846,7 @@ def blocks_of(tier: str, info: Dict[str, Any]):
     block: List[Any] = []
     cur = None
     for grp, v in value_space(tier):
-        level = "base" if grp.startswith("depth3") else "full"
+        level = "base" if grp.startswith("depth3") or (tier == "quick" and grp.startswith("depth2")) else "full"
         if cur is not None and level != cur and block:
             yield (cur, block)
             block = []
@@ -733,8 +884,117 @@ def run(tier: str, only=None) -> core.Result:
     viol_sigs: Dict[str, int] = {}
     n_drivers = max(1, workers.n_total_workers() // 2)
     blocks: List[List[Any]] = []
+    # the parts that do not depend on the value grammar run in a background thread while the driver processes work through
+    # the values (the thread is started after the driver processes were forked); their findings are merged afterwards
+    side_out: Dict[str, Any] = {}
+
+    def side():
+        res_s = core.Result("C17", "exploration")
+        tally_s = Tally()
+        viol_sigs_s: Dict[str, int] = {}
+        samples_s: List[Any] = []
+        try:
+            # the message path under {orjson, stdlib} x {Pydantic, fallback}
+            msgs = message_space()
+            msg_audit: Dict[str, list] = {}
+            msg_hello: Dict[str, Any] = {}
+            if not res_s.harness_errors:
+                mpools = start_msg_pools(max(1, workers.n_total_workers() // (2 * len(MSG_CONFIGS))))
+                try:
+                    msg_hello = {n: p.hello for n, p in mpools.items()}
+                    for (i, sig, msg) in judge_messages(msgs, mpools, tally_s, msg_audit):
+                        k = json.dumps(sig, sort_keys=True)
+                        viol_sigs_s[k] = viol_sigs_s.get(k, 0) + 1
+                        if viol_sigs_s[k] <= 8:
+                            res_s.add_violation(sig, msg, {"ref": "vf.checks.c17:replay_case", "args": {"message": enc(msgs[i])}})
+                        else:
+                            res_s.violation_total += 1
+                finally:
+                    for p in mpools.values():
+                        p.close()
+                samples_s.append({"group": "message-path", "message": msgs[len(msgs) // 3]})
+
+            # the file API under both codecs
+            file_vals = file_values()
+            file_audit: Dict[str, list] = {}
+            if not res_s.harness_errors:
+                fpools = start_pools(max(1, workers.n_total_workers() // 4))
+                try:
+                    for (i, sig, msg) in judge_files(file_vals, fpools, tally_s, file_audit):
+                        k = json.dumps(sig, sort_keys=True)
+                        viol_sigs_s[k] = viol_sigs_s.get(k, 0) + 1
+                        if viol_sigs_s[k] <= 8:
+                            res_s.add_violation(sig, msg, {"ref": "vf.checks.c17:replay_case", "args": {"file_value": enc(file_vals[i])}})
+                        else:
+                            res_s.violation_total += 1
+                finally:
+                    for p in fpools.values():
+                        p.close()
+                samples_s.append({"group": "file-api", "value": enc(file_vals[len(file_vals) // 2])})
+
+            # ENCODE statefulness: ordered pairs and triples of dumps() / model_dump_json() calls, each sequence in a process of its own
+            from .. import encseq, orderdep as _od
+
+            seq_info: Dict[str, Any] = {}
+            seq_refs: Dict[str, Any] = {}
+            seq_audit: Dict[str, list] = {}
+            if not res_s.harness_errors:
+                plan = [("dumps", {**cfg, "env_set": {**cfg.get("env_set", {}), "VF_C17_CODEC_ONLY": "1"}}, encseq.dumps_sequences(tier))
+                        for cfg in CONFIGS] + \
+                       [("model", cfg, encseq.model_sequences(tier)) for cfg in MSG_CONFIGS]
+                n_each = max(1, workers.n_total_workers() // 4)
+
+                def run_plan(item):
+                    kind, cfg, seqs = item
+                    cases = [["seq", kind, sq] for sq in seqs]
+                    with workers.Pool(cfg, HANDLER, n_each) as pool:
+                        return cases, pool.map(cases, batch=40)
+
+                done = _od.per_config([{"name": f"{k}:{c['name']}", "item": (k, c, sq)} for k, c, sq in plan], lambda x: run_plan(x["item"]))
+                for kind, cfg, seqs in plan:
+                    cases, answers = done[f"{kind}:{cfg['name']}"]
+                    for i in workers.audit_indices(cases, 11):
+                        seq_audit.setdefault(f"{kind}:{cfg['name']}", []).append((cases[i], answers[i]))
+                    try:
+                        viol, counters = encseq.judge(kind, cfg["name"], seqs, answers)
+                    except RuntimeError as e:
+                        res_s.harness_errors.append(f"sequence worker ({kind}, {cfg['name']}): {str(e)[-400:]}")
+                        continue
+                    seq_refs.setdefault(kind, {})[cfg["name"]] = counters.pop("_refs")
+                    for k_, n_ in counters.items():
+                        tally_s.add(f"encode_sequences:{kind}:{k_}", n_)
+                    seq_info[f"{kind}:{cfg['name']}"] = counters
+                    for (si, sig, msg) in viol:
+                        k_ = json.dumps(sig, sort_keys=True)
+                        viol_sigs_s[k_] = viol_sigs_s.get(k_, 0) + 1
+                        if viol_sigs_s[k_] <= 8:
+                            res_s.add_violation(sig, msg, {"ref": "vf.checks.c17:replay_case",
+                                                         "args": {"sequence": seqs[si], "layer": kind, "config": cfg["name"]}})
+                        else:
+                            res_s.violation_total += 1
+                for (sq, sig, msg) in encseq.judge_across("dumps", seq_refs.get("dumps", {})):
+                    k_ = json.dumps(sig, sort_keys=True)
+                    viol_sigs_s[k_] = viol_sigs_s.get(k_, 0) + 1
+                    res_s.add_violation(sig, msg, {"ref": "vf.checks.c17:replay_case", "args": {"sequence": sq, "layer": "dumps", "config": "orjson",
+                                                                                             "across": True}})
+                seq_info["orjson_refused_values_compared_across_codecs"] = sum(
+                    1 for (o, v) in seq_refs.get("dumps", {}).get("orjson", {}) if encseq.build_values()[v][0] in encseq.STDLIB_PATH_VALUES)
+                samples_s.append({"group": "encode-sequence", "calls": encseq.describe("dumps", plan[0][2][len(plan[0][2]) // 2])})
+
+            side_out.update(msgs=msgs, msg_audit=msg_audit, msg_hello=msg_hello, file_vals=file_vals, file_audit=file_audit,
+                            seq_info=seq_info, seq_audit=seq_audit)
+        except BaseException as e:  # noqa: BLE001
+            import traceback
+
+            res_s.harness_errors.append(f"side phases failed: {type(e).__name__}: {e} {traceback.format_exc()[-600:]}")
+        side_out.update(res=res_s, tally=tally_s, viol_sigs=viol_sigs_s, samples=samples_s)
+
     ctx = mp.get_context("fork")
     with ctx.Pool(n_drivers) as drivers:
+        import threading
+
+        side_thread = threading.Thread(target=side)
+        side_thread.start()
 
         def feed():
             for b in blocks_of(tier, info):
@@ -761,66 +1021,19 @@ def run(tier: str, only=None) -> core.Result:
     n_values, n_nontrivial, groups, samples = info["values"], info["nontrivial"], info["groups"], info["samples"]
 
     phases["values"] = round(_time.time() - t_start, 1)
-    # the message path under {orjson, stdlib} x {Pydantic, fallback}
-    msgs = message_space()
-    msg_audit: Dict[str, list] = {}
-    msg_hello: Dict[str, Any] = {}
-    if not res.harness_errors:
-        mpools = start_msg_pools(max(1, workers.n_total_workers() // (2 * len(MSG_CONFIGS))))
-        try:
-            msg_hello = {n: p.hello for n, p in mpools.items()}
-            for (i, sig, msg) in judge_messages(msgs, mpools, tally, msg_audit):
-                k = json.dumps(sig, sort_keys=True)
-                viol_sigs[k] = viol_sigs.get(k, 0) + 1
-                if viol_sigs[k] <= 8:
-                    res.add_violation(sig, msg, {"ref": "vf.checks.c17:replay_case", "args": {"message": enc(msgs[i])}})
-                else:
-                    res.violation_total += 1
-        finally:
-            for p in mpools.values():
-                p.close()
-        samples.append({"group": "message-path", "message": msgs[len(msgs) // 3]})
-
-    # ENCODE statefulness: ordered pairs and triples of dumps() / model_dump_json() calls, each sequence in a process of its own
-    from .. import encseq, orderdep as _od
-
-    seq_info: Dict[str, Any] = {}
-    seq_audit: Dict[str, list] = {}
-    if not res.harness_errors:
-        plan = [("dumps", {**cfg, "env_set": {**cfg.get("env_set", {}), "VF_C17_CODEC_ONLY": "1"}}, encseq.dumps_sequences(tier))
-                for cfg in CONFIGS] + \
-               [("model", cfg, encseq.model_sequences(tier)) for cfg in MSG_CONFIGS]
-        n_each = max(1, workers.n_total_workers() // 4)
-
-        def run_plan(item):
-            kind, cfg, seqs = item
-            cases = [["seq", kind, sq] for sq in seqs]
-            with workers.Pool(cfg, HANDLER, n_each) as pool:
-                return cases, pool.map(cases, batch=40)
-
-        done = _od.per_config([{"name": f"{k}:{c['name']}", "item": (k, c, sq)} for k, c, sq in plan], lambda x: run_plan(x["item"]))
-        for kind, cfg, seqs in plan:
-            cases, answers = done[f"{kind}:{cfg['name']}"]
-            for i in workers.audit_indices(cases, 11):
-                seq_audit.setdefault(f"{kind}:{cfg['name']}", []).append((cases[i], answers[i]))
-            try:
-                viol, counters = encseq.judge(kind, cfg["name"], seqs, answers)
-            except RuntimeError as e:
-                res.harness_errors.append(f"sequence worker ({kind}, {cfg['name']}): {str(e)[-400:]}")
-                continue
-            for k_, n_ in counters.items():
-                tally.add(f"encode_sequences:{kind}:{k_}", n_)
-            seq_info[f"{kind}:{cfg['name']}"] = counters
-            for (si, sig, msg) in viol:
-                k_ = json.dumps(sig, sort_keys=True)
-                viol_sigs[k_] = viol_sigs.get(k_, 0) + 1
-                if viol_sigs[k_] <= 8:
-                    res.add_violation(sig, msg, {"ref": "vf.checks.c17:replay_case",
-                                                 "args": {"sequence": seqs[si], "layer": kind, "config": cfg["name"]}})
-                else:
-                    res.violation_total += 1
-        samples.append({"group": "encode-sequence", "calls": encseq.describe("dumps", plan[0][2][len(plan[0][2]) // 2])})
-
+    side_thread.join()
+    res.harness_errors.extend(side_out["res"].harness_errors)
+    for v_ in side_out["res"].violations:
+        res.add_violation(v_.sig, v_.message, v_.replay)
+    res.violation_total += side_out["res"].violation_total - len(side_out["res"].violations)
+    for k_, n_ in side_out["tally"].c.items():
+        tally.add(k_, n_)
+    for k_, n_ in side_out["viol_sigs"].items():
+        viol_sigs[k_] = viol_sigs.get(k_, 0) + n_
+    samples.extend(side_out["samples"])
+    msgs, msg_audit, msg_hello = side_out.get("msgs", []), side_out.get("msg_audit", {}), side_out.get("msg_hello", {})
+    file_vals, file_audit = side_out.get("file_vals", []), side_out.get("file_audit", {})
+    seq_info, seq_audit = side_out.get("seq_info", {}), side_out.get("seq_audit", {})
     phases["messages"] = round(_time.time() - t_start - phases["values"], 1)
     # determinism audit: fresh workers per configuration answer a 1-in-N subset again (all configurations concurrently)
     from .. import orderdep
@@ -831,6 +1044,7 @@ def run(tier: str, only=None) -> core.Result:
            [({**cfg, "name": "state:" + cfg["name"]}, [p_ for p_ in audit_store.get(cfg["name"], []) if p_[0][0] == "state"])
             for cfg in CONFIGS] + \
            [({**cfg, "name": "msg:" + cfg["name"]}, msg_audit.get(cfg["name"], [])) for cfg in MSG_CONFIGS] + \
+           [({**cfg, "name": "file:" + cfg["name"]}, file_audit.get(cfg["name"], [])) for cfg in CONFIGS] + \
            [({**cfg, "env_set": {"VF_C17_CODEC_ONLY": "1"}, "name": "seq-dumps:" + cfg["name"]},
              seq_audit.get("dumps:" + cfg["name"], [])) for cfg in CONFIGS] + \
            [({**cfg, "name": "seq-model:" + cfg["name"]}, seq_audit.get("model:" + cfg["name"], [])) for cfg in MSG_CONFIGS]
@@ -874,9 +1088,11 @@ def run(tier: str, only=None) -> core.Result:
         res.harness_errors.append("vacuous: the two configurations never produced different encodings - is orjson really masked?")
     cov = res.coverage
     cov["evaluations"] = tally.c.get("roundtrips_judged", 0) + tally.c.get("message_roundtrips_judged", 0) + \
-        tally.c.get("decode_mutate_decode_sequences", 0) + \
-        sum(v.get("calls_compared_with_fresh_process", 0) for v in seq_info.values())
+        tally.c.get("decode_mutate_decode_sequences", 0) + tally.c.get("file_roundtrips_judged", 0) + tally.c.get("file_loads", 0) + \
+        sum(v.get("calls_compared_with_fresh_process", 0) for v in seq_info.values() if isinstance(v, dict))
     cov["encode_sequences"] = seq_info
+    cov["file_api"] = {"values": len(file_vals), "file_kinds": FILE_KINDS, "dumps": tally.c.get("file_dumps", 0),
+                       "loads": tally.c.get("file_loads", 0), "roundtrips_judged": tally.c.get("file_roundtrips_judged", 0)}
     cov["message_path"] = {"messages": len(msgs), "configurations": msg_hello,
                            "encodings": tally.c.get("message_encodings", 0),
                            "distinct_single_line_encodings": tally.c.get("message_distinct_encodings", 0),
@@ -902,12 +1118,15 @@ def run(tier: str, only=None) -> core.Result:
         "floats: -0.0, max, min normal, max/min denormal, 0.1+0.2, exponent-format boundaries) with 20 keys incl. empty, "
         "control, non-ASCII and astral: depth<=1 over the full scalar set, depth 2 over a 19-scalar inner set"
         + (", depth 3 over the 9-scalar inner set" if tier == "thorough" else "")
-        + "; each value x {orjson, stdlib} x {dumps, dumps(separators), dump(fp)} + (all but the deepest group) 14 further "
+        + "; each value x {orjson, stdlib} x {dumps, dumps(separators), dump(fp)} + (quick: the depth<=1 group, thorough: all but the deepest group) 14 further "
         "keyword combinations that json.dumps treats as compact (indent=None, sort_keys, ensure_ascii, default, separators, "
         "check_circular, allow_nan, skipkeys, cls; incl. the call the fallback model base makes) and each distinct encoding x {orjson, stdlib} "
         "x {loads(str), loads(bytes), load(text fp), load(bytes fp)}; evaluations = round trips judged; distinct = distinct "
         "values by type-strict canonical form; non-trivial = contains a float, an integer beyond +-2^53 or a string/key "
-        "that is not printable ASCII or needs escaping; encode statefulness: every ordered pair (on every pair of 6 values, "
+        "that is not printable ASCII or needs escaping; file API: every boundary string as scalar/item/member/key x {orjson, stdlib} "
+        "x dump() and load() over a binary file, BytesIO, StringIO and text files encoded utf-8/ascii/latin-1/cp1252/utf-16: dump "
+        "succeeds under both codecs or neither, what was written (decoded with the file's codec) loads back to the value under both, "
+        "load() of ASCII and of raw JSON text gives the value; encode statefulness: every ordered pair (on every pair of 6 values, "
         "incl. values that take the stdlib path under orjson: 2^64, nesting beyond orjson's limit, a lone surrogate, an object "
         "needing default=) and every ordered triple (quick: the triples a,b,a and a,a,b on two value patterns; thorough: all triples on 13 value patterns) of dumps() calls "
         "over 13 option sets, and pairs/triples of model_dump_json calls (3 models x 5 argument sets) in the four message "
@@ -925,7 +1144,7 @@ def run(tier: str, only=None) -> core.Result:
         "integers outside [-2^63, 2^64-1], NaN/Infinity, lone surrogates and non-string keys are outside the statement and outside the alphabet",
         "output for a non-null indent (incl. indent=0, which the standard library renders over several lines) is not a compact encoding and is not judged",
         "message path: the value a message stands for is its own model_dump with the same arguments, taken in the producing worker; a difference of that value between the Pydantic and the fallback backend is C09's subject and only counted here",
-        "fast_json.dump is judged with a text file object (the json.dump contract); dump to a binary file object works only with orjson and is not judged",
+        "text files are io.TextIOWrapper objects over a memory buffer with the stated encoding and binary files io.BufferedWriter/BufferedReader over one - the classes open() returns - so that the check writes nothing to disk",
         "encode statefulness: 'a fresh process' is a fork of a worker that has imported the library and has never called an encoder; outputs are compared by length and a 80-bit digest",
         "statefulness part: the in-place mutations are an append and an item replacement on every list, a new key and a key deletion on every dict, at nesting depth 0-2 of the decoded value; the value must decode unchanged afterwards through every decoding entry point",
         "the orjson-masked worker models 'orjson not installed' by an import blocker placed on sys.meta_path before chuk_mcp is imported",
@@ -934,9 +1153,31 @@ def run(tier: str, only=None) -> core.Result:
 
 
 def replay_case(args: Dict[str, Any]) -> Dict[str, Any]:
+    if "file_value" in args:
+        v = dec(args["file_value"])
+        tally = Tally()
+        pools = start_pools(1)
+        try:
+            viol = judge_files([v], pools, tally, {})
+            shown = {n: p.map([["file", enc(v)]])[0]["dump"] for n, p in pools.items()}
+        finally:
+            for p in pools.values():
+                p.close()
+        return {"value": repr(v)[:200], "dump_results": shown, "violations": [{"sig": s_, "msg": m} for (_, s_, m) in viol]}
     if "sequence" in args:
         from .. import encseq
 
+        if args.get("across"):
+            refs = {}
+            shown = {}
+            for cfg in CONFIGS:
+                with workers.Pool(cfg, HANDLER, 1) as pool:
+                    a = pool.map([["seq", "dumps", args["sequence"], True]], batch=1)[0]
+                refs[cfg["name"]] = {(args["sequence"][0][0], args["sequence"][0][1]): a[0]}
+                shown[cfg["name"]] = a[0]
+            viol = encseq.judge_across("dumps", refs)
+            return {"call": encseq.describe("dumps", args["sequence"]), "first_call_in_a_fresh_process": shown,
+                    "violations": [{"sig": s_, "msg": m} for (_, s_, m) in viol]}
         cfg = [c for c in (CONFIGS + MSG_CONFIGS) if c["name"] == args["config"]][0]
         seq = args["sequence"]
         cases = [["seq", args["layer"], [c], True] for c in seq] + [["seq", args["layer"], seq, True]]
